@@ -34,6 +34,14 @@ pub fn canon(e: &E) -> E {
     }
 }
 
+/// implementation tree (numbers as `digits@exp`) -> tree with number texts the model reads
+pub fn plain_numbers(e: &E) -> E {
+    match e {
+        E::Num(t) => E::Num(t.replace('@', "e")),
+        _ => map_children(e, &|c| plain_numbers(c), false),
+    }
+}
+
 struct Conv<'m> {
     mgr: &'m SpanManager,
     spans: Vec<(usize, usize)>,
